@@ -1,4 +1,5 @@
 import MimeModel.Lemmas.MediaTypeU
+import MimeModel.Lemmas.MediaTypeUB
 import MimeModel.Props.C15
 /-
   C15 for ARBITRARY byte strings: `(*MIME).Is` / `EqualsAny` call `mime.ParseMediaType`, which
@@ -247,5 +248,12 @@ example : typeOfU [116, 101, 120, 116, 47, 104, 116, 109, 108, 59, 226, 128, 139
     errU [116, 101, 120, 116, 47, 104, 116, 109, 108, 59, 226, 128, 139] = .invalidParam := by decide
 -- "text/html;" U+212A "=1": attribute names are NOT Unicode-lower-cased into ASCII (the token ends at the first byte >= 0x80)
 example : errU [116, 101, 120, 116, 47, 104, 116, 109, 108, 59, 226, 132, 170, 61, 49] = .invalidParam := by decide
+
+/-- **the rune-level model is the literal transcription**: `typeOfB` follows Go's code byte by byte
+    (`strings.ToLower` with its ASCII fast path and `strings.Map`, `strings.TrimSpace` with its fast paths and
+    backward decoding, the parameter loop); it equals `typeOfU`, the model the theorems above speak of, on
+    every byte string, valid UTF-8 or not (Lemmas/MediaTypeUB.lean) -/
+theorem transcription_eq_model (v : Bytes) : MTU.typeOfB v = MTU.typeOfU v ∧ MTU.errB v = MTU.errU v :=
+  ⟨MTU.typeOfB_eq_typeOfU v, MTU.errB_eq_errU v⟩
 
 end Mime.C15
